@@ -1,3 +1,4 @@
+import nv
 from props._local import known_witnesses
 from props._solver import standard_run
 
@@ -15,7 +16,7 @@ def var_heuristics(ctx, corr, viol):
     rng = random.Random(ctx["seed"] + 401)
     report = ctx["report"]
     reqs = []
-    n = 400 if ctx["tier"] == "quick" else 8000
+    n = 400 * nv.boost("engine") if ctx["tier"] == "quick" else 8000
     for _ in range(n):
         nd = rng.randint(1, 6)
         doms = []
